@@ -763,6 +763,15 @@ func Run(t *testing.T, tape *Tape, opt Options, body func(s *Sim, main *Task)) *
 			res.Steps = s.Steps
 			res.SimNs = int64(time.Since(s.start))
 			s.kill()
+			// Let what the run left behind unwind before the bubble is abandoned: goroutines of
+			// dependencies waiting on timers of this bubble's clock (net/http request timeouts, retry
+			// back-offs) would otherwise stay blocked for ever once the bubble's clock stops, with
+			// everything they reference (C18 leaked 90 MB/s per worker). Simulated time is free.
+			for i := 0; i < 3; i++ {
+				synctest.Wait()
+				time.Sleep(20 * time.Minute)
+			}
+			synctest.Wait()
 			active.Store(nil)
 		})
 	}()
